@@ -227,6 +227,25 @@ def freeze_suite(tier, seed, sid0):
             sc["freeze"] = [rng.randrange(1, len(sc["threads"]) + 1), rng.randrange(0, 8)]
             sc["tag"] = {"suite": "freeze"}
             out.append(sc)
+    # systematic: every behaviour of the 2x1 Counter configuration (TLC export) x which thread is frozen x after how
+    # many of its steps (sampled in the quick tier)
+    c = cfg(C_BASE, SrcLen=2, MaxOps=1, Sizes={1, 2, 3},
+            OpKinds={"next", "nextid", "chunk", "foreach", "eforeach", "fold", "values", "idsvalues", "skip", "len", "hasmore"})
+    g = generate("genc_2x1", "Counter", c, "all", timeout=900)
+    beh = [b for b in g["behaviours"] if all(len(b["prog"].get(str(t), [])) > 0 for t in (1, 2))] if g["behaviours"] and isinstance(g["behaviours"][0]["prog"], dict) else g["behaviours"]
+    n = 1500 if tier == "quick" else 40000
+    kinds = ["vec", "slice", "range", "array", "cloned_slice", "copied_slice"]
+    for i in range(min(n, len(beh) * 4)):
+        b = beh[rng.randrange(len(beh))]
+        t = rng.choice([1, 2])
+        k = rng.randrange(0, 4)
+        kind = kinds[i % len(kinds)]
+        sc = scenario_of(b, sid0 + len(out), kind, 2, 2, {"tag": {"suite": "freeze_gen"}})
+        sc.pop("post", None)
+        sc["freeze"] = [t, k]
+        if kind == "range":
+            sc["start"] = 5
+        out.append(sc)
     return out, {"replayed": len(out)}
 
 
